@@ -201,7 +201,27 @@ EXPORT errno_t _wcsrtombs_s_chk(size_t *restrict retvalp, char *restrict dest,
         return RCNEGATE(ESOVRLP);
     }
 
-    l = *retvalp = wcsrtombs(dest, srcp, len, ps);
+    /* libc stores up to len bytes: never more than dest holds (see
+       wcstombs_s) */
+    if (dest && len > dmax) {
+        l = wcsrtombs(dest, srcp, dmax, ps);
+        if (l != (size_t)-1 && *srcp != NULL) {
+            /* stopped before the terminator: would libc, allowed len bytes,
+               have stored the next character as well? */
+            char mb[MB_LEN_MAX];
+            mbstate_t st2;
+            size_t b;
+            memcpy(&st2, ps, sizeof(st2));
+            b = wcrtomb(mb, **srcp, &st2);
+            if (b == (size_t)-1)
+                l = (size_t)-1; /* illegal character */
+            else if (l + b <= len)
+                l = dmax; /* does not fit */
+        }
+        *retvalp = l;
+    } else {
+        l = *retvalp = wcsrtombs(dest, srcp, len, ps);
+    }
 
     if (likely(l > 0 && l < dmax)) {
 #ifdef SAFECLIB_STR_NULL_SLACK
